@@ -1,7 +1,7 @@
 SPECIFICATION SpecIdle
 CONSTANTS
   Firers = {"f1"}
-  Variants = {"fallback", "poller"}
+  Variants = {"fallback"}
   Timers = {TRUE}
   Quotas <- UniformQuotas
   NFiresSet = {1}
